@@ -632,6 +632,26 @@ def malformed_case(ctx):
                                     "args": "vector field without component-to-axis mapping",
                                     "inplace": inplace, "ndim": spec.nd, "n": spec.n},
                               k=int(rng.choice([1, 2, 3])), inplace=inplace)
+    # a step that would produce a degenerate region although every argument is well formed:
+    # a region a million edge lengths from the origin, scaled by 1e-20 about its own centre -
+    # the new edges are 1e-10 of the spacing of the floating-point numbers there, so both
+    # corners are the centre whatever the order of the arithmetic
+    sgn = rng.choice([-1.0, 1.0], spec.nd)
+    far = gen.MeshSpec(sgn * 1e6 * spec.cell * spec.n, spec.cell, spec.n, spec.dims, spec.units,
+                       spec.flip)
+    tiny = float(gen.pick(rng, [1e-20, -1e-20, 1e-25]))
+    for factor in (tiny, [tiny] * spec.nd, [1.0] * (spec.nd - 1) + [tiny]):
+        for inplace in (False, True):
+            obj = far.region() if which == "region" else far.mesh(bc="")
+            if which == "field":
+                obj = df.Field(obj, nvdim=1, value=1.0)
+                if not hasattr(obj, "scale"):
+                    break
+            ctx.expect_raises("C13.malformed_rejected", obj.scale, unchanged=[obj],
+                              what={"object": which, "call": "scale", "inplace": inplace,
+                                    "args": {"factor": factor}, "degenerate_by_absorption": True,
+                                    "ndim": spec.nd, "spec": far.describe()},
+                              factor=factor, inplace=inplace)
     ctx.sig(("malformed", which, spec.nd), nontrivial=True)
 
 
